@@ -18,7 +18,7 @@ RULE = ('Hypothesis draws texts from an adversarial line alphabet (lines startin
 RULE += ' The line alphabet includes characters Python treats as blanks / line boundaries but RFC 4880 7.1 does not (U+00A0, U+3000, FF, VT, NEL, FS, U+2028). Several signers use differing hashes; the re-read message is co-signed with a further hash and exported again; foreign messages announce their hashes in one header, one header per hash, or with blanks after the commas.'
 ASSUMPTIONS = ['refpgp.armor implements RFC 4880 section 7 independently', 'lone-CR texts take part in the round-trip clause only (RFC 4880 does not '
                'define a lone CR as a line ending)', 'the cleartext travels in the transport\'s line-ending convention: text equality after reload is '
-               'modulo CRLF/LF', 'non-ASCII armored text is handed to from_blob as UTF-8 bytes or as str',
+               'modulo CRLF/LF', 'non-ASCII armored text is handed to from_blob as UTF-8 bytes, as str or (foreign messages whose text Latin-1 can hold) as Latin-1 bytes',
                'a lone CR at the very end of the text is not compared (indistinguishable from a CRLF separator on the wire)']
 
 LINES = ['', 'plain line', '-dash at start', '- dash space', '--', '-----BEGIN PGP SIGNATURE-----', '-----BEGIN PGP SIGNED MESSAGE-----', '-----END PGP MESSAGE-----',
@@ -75,7 +75,7 @@ def case_strategy():
         'text': text_strategy(),
         'halg': st.sampled_from(sigkit.HASH_IDS),
         'signers': st.lists(st.sampled_from(SIGNERS), min_size=1, max_size=3, unique=True),
-        'form': st.sampled_from(['str', 'utf8', 'crlf']),
+        'form': st.sampled_from(['str', 'utf8', 'crlf', 'latin1']),
     })
 
 
@@ -105,6 +105,13 @@ def region(text, cl):
 
 
 def transport(s, form):
+    if form == 'latin1':
+        # a file in another character set than UTF-8 (what gpg --clearsign makes of a Latin-1 file); texts it cannot hold travel as UTF-8
+        try:
+            b = s.encode('latin-1')
+            return b if not b.isascii() else s.encode('utf-8')
+        except UnicodeEncodeError:
+            return s.encode('utf-8')
     if form == 'utf8':
         return s.encode('utf-8')
     if form == 'crlf':
@@ -212,6 +219,14 @@ def eval_ref(c, rec, cl):
         cl = classes(text)
     reg = region(text, cl)
     signed = armor.cleartext_signed_octets(text)
+    if c['form'] == 'latin1':
+        try:
+            if not text.encode('latin-1').isascii():
+                # the signer works on the octets of the file, which is Latin-1
+                signed = signed.decode('utf-8').encode('latin-1')
+                rec.note('foreign-text-in-latin-1')
+        except UnicodeEncodeError:
+            pass
     pkts = b''
     hset = [sigkit.HASH_IDS[(sigkit.HASH_IDS.index(c['halg']) + i) % len(sigkit.HASH_IDS)] for i in range(len(c['signers']))]
     for kid, h in zip(c['signers'], hset):
@@ -251,6 +266,9 @@ def evaluate(c, rec):
     rec.case((c['dir'], tuple(cl), c['halg'], len(c['signers']), c['form']), nontriv,
              ['dir/' + c['dir'], 'hash/%d' % c['halg'], 'nsigners/%d' % len(c['signers']), 'form/' + c['form']] + ['text/' + x for x in cl],
              {'dir': c['dir'], 'text': c['text'][:120], 'classes': cl, 'hash': sigkit.HASHES[c['halg']], 'signers': c['signers'], 'form': c['form']})
+    if c['dir'] == 'pgpy' and c['form'] == 'latin1':
+        # (PGPy signs the UTF-8 octets of a str: transcoding its output would make another document)
+        c = dict(c, form='utf8')
     if c['dir'] == 'pgpy':
         eval_pgpy(c, rec, cl)
     else:
